@@ -6,8 +6,8 @@ from .. import common, engine_hist, refgraph, sandbox
 from . import c09
 
 PROP = 'C10'
-PLANS = {'quick': [('GOPS', 'all', 3, 1), ('GOPS2', 'all', 3, 1)],
-         'thorough': [('GOPS', 'all', 4, 2), ('GOPS2', 'all', 4, 1)]}
+PLANS = {'quick': [('GOPS', 'all', 3, 1), ('GOPS2', 'all', 2, 1), ('GOPS', 'all', 2, 1, 'auto'), ('GOPS', 'all', 2, 0, 'dup')],
+         'thorough': [('GOPS', 'all', 4, 2), ('GOPS2', 'all', 4, 1), ('GOPS', 'all', 3, 1, 'auto'), ('GOPS', 'all', 3, 1, 'dup')]}
 VARIANTS = ['as_is', 'decorated']
 
 
@@ -44,7 +44,7 @@ def typed(obs, with_model, src_has_assets):
 def check_state(system, hist, stats):
     from maltoolbox.attackgraph import AttackGraph
     viols = []
-    case0 = {'system': repr((system.which, system.alpha)), 'history': [list(h) for h in hist]}
+    case0 = {'system': repr((system.which, system.alpha, system.cfg.get('names', 'plain'))), 'history': [list(h) for h in hist]}
     for variant in VARIANTS:
         for fmt in ('json', 'yml'):
             for with_model in (True, False):
@@ -147,12 +147,14 @@ def run(tier, seed):
                        'asset-less loads are not compared; defense_status compared by value']
     scratch = common.Result(PROP, tier, seed, 'model_checking')
     total = 0
-    for lang, alpha, depth, K in PLANS[tier]:
-        reps = engine_hist.explore(c09.make_system, (lang, alpha), depth, K, scratch, seed, shard=16,
-                                   label=f'[{lang},{alpha},D{depth},K{K}]')
+    for plan in PLANS[tier]:
+        lang, alpha, depth, K = plan[:4]
+        sysarg = (lang, alpha) + tuple(plan[4:])
+        reps = engine_hist.explore(c09.make_system, sysarg, depth, K, scratch, seed, shard=16,
+                                   label=f'[{",".join(sysarg)},D{depth},K{K}]')
         hists = common.rotate([reps[k][0] for k in sorted(reps)], seed)
         total += len(hists)
-        jobs = [((lang, alpha), hists[i:i + 8]) for i in range(0, len(hists), 8)]
+        jobs = [(sysarg, hists[i:i + 8]) for i in range(0, len(hists), 8)]
         for stats, viols in common.pmap(_job, jobs):
             res.merge_counts(stats)
             res.add_violations(viols)
